@@ -8,23 +8,36 @@ Theorem C10_unhandled_passes_through : forall pos cfg (inner : layer) c w,
 Proof. exact fallback_unhandled_passes_through. Qed.
 Print Assumptions C10_unhandled_passes_through.
 
+(* [w2]: the world when the fallback is about to be applied -- after the policy's own failure listener has run, however long it
+   took; [w3]: the world when the fallback function has returned, however long it took *)
 Theorem C10_handled_failure_is_replaced_once : forall pos cfg (inner : layer) c w,
   let r := fst (inner c w) in let w1 := snd (inner c w) in
-  let w2 := ev_with_result w1 c KPolFailure pos (with_failure r) in
-  is_failure (fb_fpol cfg) (pr_out r) = true -> is_canceled w2 c = None ->
+  let w2 := pause (ev_with_result w1 c KPolFailure pos (with_failure r)) (fb_lsn_dur cfg) in
+  let w3 := pause w2 (fb_dur cfg) in
+  is_failure (fb_fpol cfg) (pr_out r) = true -> is_canceled w2 c = None -> is_canceled w3 c = None ->
   let seen := (pr_res r, match pr_err r with Some e => Some e | None => copy_err w2 c end) in
   let o := fb_apply (fb_kind_of cfg) seen in
   let ok := negb (is_failure (fb_fpol cfg) o) in
   fallback_layer pos cfg inner c w =
     ({| pr_res := fst o; pr_err := snd o; pr_done := true; pr_succ := ok; pr_all := ok |},
-     emit w2 KFallbackExecuted pos o 0).
+     emit w3 KFallbackExecuted pos o 0).
 Proof. exact fallback_handled_replaces. Qed.
 Print Assumptions C10_handled_failure_is_replaced_once.
 
 Theorem C10_not_applied_when_cancelled : forall pos cfg (inner : layer) c w cr,
   let r := fst (inner c w) in let w1 := snd (inner c w) in
-  let w2 := ev_with_result w1 c KPolFailure pos (with_failure r) in
+  let w2 := pause (ev_with_result w1 c KPolFailure pos (with_failure r)) (fb_lsn_dur cfg) in
   is_failure (fb_fpol cfg) (pr_out r) = true -> is_canceled w2 c = Some cr ->
   fallback_layer pos cfg inner c w = (cr, w2).
 Proof. exact fallback_not_applied_when_cancelled. Qed.
 Print Assumptions C10_not_applied_when_cancelled.
+
+(* a cancellation that arrives while the fallback function runs: the function's output is dropped, no OnFallbackExecuted *)
+Theorem C10_output_dropped_when_cancelled_meanwhile : forall pos cfg (inner : layer) c w cr,
+  let r := fst (inner c w) in let w1 := snd (inner c w) in
+  let w2 := pause (ev_with_result w1 c KPolFailure pos (with_failure r)) (fb_lsn_dur cfg) in
+  let w3 := pause w2 (fb_dur cfg) in
+  is_failure (fb_fpol cfg) (pr_out r) = true -> is_canceled w2 c = None -> is_canceled w3 c = Some cr ->
+  fallback_layer pos cfg inner c w = (cr, w3).
+Proof. exact fallback_output_dropped_when_cancelled_meanwhile. Qed.
+Print Assumptions C10_output_dropped_when_cancelled_meanwhile.
